@@ -282,8 +282,8 @@ func init() {
 	add("", "abcd", "len")
 	add("", "A", "pattern")
 	add("", "ba", "pattern")
-	add("#eacute", "é", "len", "pattern") // 2 bytes, 1 character
-	add("#hello", "héllo", "len", "mb")     // 6 bytes, 5 characters
+	add("#eacute", "é", "len", "pattern")       // 2 bytes, 1 character
+	add("#hello", "héllo", "len", "mb")         // 6 bytes, 5 characters
 	add("#nihon", "日本", "len", "mb", "pattern") // 6 bytes, 2 characters
 	add("#eacute", "é", "mb")
 	add("", "a.b", "pattern")
